@@ -16,6 +16,7 @@ Checks (from the statement; modular so that one defect shows under one key):
 from __future__ import annotations
 
 import itertools
+import time
 
 import numpy as np
 
@@ -305,12 +306,20 @@ def run(tier="quick", seed=0, repo="/repo"):
         _enumerate(rec, tier, seed, bound)
     except O.Abort:
         bound["text"] = bound.get("text", "") + " [enumeration stopped early: calls into the real code did not terminate]"
-    return rec.result(RULE, bound.get("text", "stopped before the bound was fixed"), exhaustive=False)
+    return rec.result(RULE, bound.get("text", "stopped before the bound was fixed"), exhaustive=False, section_seconds=bound.get("timing", {}))
 
 
 def _enumerate(rec, tier, seed, bound_out):
     rng = np.random.default_rng(seed)
     quick = tier == "quick"
+    t0 = [time.time(), None]
+    timing = bound_out.setdefault("timing", {})
+
+    def tick(label):
+        now = time.time()
+        if t0[1] is not None:
+            timing[t0[1]] = round(timing.get(t0[1], 0.0) + now - t0[0], 1)
+        t0[0], t0[1] = now, label
     gs = [1.1, 1.5, 2.0] if quick else [1.01, 1.1, 1.25, 1.5, 1.75, 2.0]
     ms = [1, 2, 3] if quick else [1, 2, 3, 4]
     span = 12 if quick else 20
@@ -322,6 +331,7 @@ def _enumerate(rec, tier, seed, bound_out):
                          f"[0,{n0}] + random systems; run: table scores n<={max(n_run)} with m in {ms}, M in 2m..n+2, g in {gs}; built-in n in {ns_b}, p<=2; "
                          f"detector: n in {ns_d}")
 
+    tick("1")
     # (1) admissible inner intervals, exhaustive
     for s in (0, 1, 3):
         for e in range(s, s + span + 1):
@@ -329,6 +339,7 @@ def _enumerate(rec, tier, seed, bound_out):
                 inp = {"check": "inner", "start": s, "end": e, "m": m}
                 rec.case(("inner", s, e, m), check_inner(rec, inp), inp if (s, e, m) == (1, 7, 2) else None)
 
+    tick("2")
     # (2) greedy kernel, exhaustive on explicit candidate systems over [0,5]
     subs = [(s, e) for s in range(n0 + 1) for e in range(s + 3, n0 + 1)]
     for K in (1, 2, 3):
@@ -366,6 +377,7 @@ def _enumerate(rec, tier, seed, bound_out):
         for th, nt in zip(ths, check_greedy_kernel(rec, inp)):
             rec.case(("gr", it, th), nt, dict(inp, thresholds=[th]) if it == 0 and nt else None)
 
+    tick("3")
     # (3) run_circular_binseg
     for n in n_run:
         X0 = np.zeros((n, 1))
@@ -398,6 +410,7 @@ def _enumerate(rec, tier, seed, bound_out):
                             for i, nt in enumerate(check_run(rec, inp)):
                                 rec.case(("run", name, n, p, m, M, g, kind, i), nt, None)
 
+    tick("4")
     # (4) detector class
     for n in ns_d:
         for p in ((1,) if quick and n != 8 else (1, 2)):
@@ -436,6 +449,7 @@ def _enumerate(rec, tier, seed, bound_out):
                                     d["Xfit"] = O.gen_data(rng, n + 1, p, "none")
                                 inf2 = check_detector(rec, d)
                                 rec.case(("det", str(spec), n, p, m, M, g, "tuned", level), inf2["nt"], None)
+    tick("end")
 
 
 def replay(inp, repo="/repo"):
